@@ -6,7 +6,7 @@ import os
 import shutil
 from typing import Dict, List
 
-from .. import tlc, naming
+from .. import tlc, naming, traces
 from ..core import Check
 from .. import repo
 from ..readers import riff
@@ -24,7 +24,11 @@ def sample_bytes_roland(image: bytes, k: int, n: int) -> bytes:
     return image[o:o + 2 * n]
 
 
-def check_dir(chk: Check, case: dict, kind: str, lens: List[int], seed: int, label: str):
+TRACE_EVENTS: List[dict] = []
+TRACE_IDS: List[dict] = []
+
+
+def check_dir(chk: Check, case: dict, kind: str, lens: List[int], seed: int, label: str, record: bool = False):
     names = [naming.S(n) for n in case["names"]]
     if kind == "akai":
         image = aw.build_image(naming.akai_files_case(names, lens), seed)
@@ -36,7 +40,14 @@ def check_dir(chk: Check, case: dict, kind: str, lens: List[int], seed: int, lab
         prefix = "Vol/Perf/"
     work = tlc.scratch_dir("c05_")
     try:
-        lines, files, err = export_image(image, work)
+        if record:
+            tp = os.path.join(work, "trace.ndjson")
+            with traces.recording(tp):
+                lines, files, err = export_image(image, work)
+            TRACE_IDS.append({"names": names, "kind": kind})
+            TRACE_EVENTS.extend(traces.load(tp, len(TRACE_IDS) - 1, {"SetLevel", "AddSample", "Write", "FinishLevel"}))
+        else:
+            lines, files, err = export_image(image, work)
         key = (label, kind, tuple(names), tuple(lens))
         chk.evaluated(key, nontrivial=any(len(o["ch"]) == 2 for o in case["outputs"]) or len(set(names)) < len(names))
         problems = []
@@ -111,9 +122,16 @@ def run(chk: Check):
         stride = max(1, len(cases) // budget)
         for i, c in enumerate(cases[chk.seed % stride::stride]):
             n = len(c["names"])
-            check_dir(chk, c, kind, [60] * n, chk.seed + i, "equal")
+            check_dir(chk, c, kind, [60] * n, chk.seed + i, "equal", record=(i % 7 == 0))
             if i % 4 == 0 and n > 1:
                 check_dir(chk, c, kind, [60 + 7 * j for j in range(n)], chk.seed + i, "unequal")
+    # trace validation of the recorded export executions: every added sample written exactly once, no path twice
+    rej = traces.validate(chk, "ExportTrace", TRACE_EVENTS, f"trace validation: export-level protocol of {len(TRACE_IDS)} recorded exports")
+    for rj in rej:
+        who = TRACE_IDS[rj["tid"]]
+        chk.violation({"trace": "export", "names": who["names"], "kind": who["kind"], "lens": [60] * len(who["names"]), "seed": chk.seed},
+                      f"{who['kind']} directory {who['names']}: export trace rejected: {sorted(rj['clauses'])}")
+    chk.extra["export_trace_events_validated"] = len(TRACE_EVENTS)
     chk.exhaustive = True
     chk.sample({"names": ["A-L", "A-L", "A L", "A L"], "note": "both duplicate groups generate 'A (2) L'"})
     chk.assumptions += ["AKAI names are limited to the AKAI character set without trailing blanks; Roland names to 16 ASCII bytes",
